@@ -200,6 +200,9 @@ class MerchantEngine:
                 if match:
                     lhs, rhs = match.groups()
                     try:
+                        # Validate now, like every other expression in the file,
+                        # instead of failing (silently) on each transaction later
+                        expr_parser.parse_expression(rhs)
                         if lhs.startswith('field.'):
                             # Field transform: field.description = regex_replace(...)
                             self.transforms.append((lhs, rhs))
